@@ -289,3 +289,19 @@ Definition ref_stop (p : params) (h : list (list (Z * obj))) (nfull : Z) (ob : l
               else Some (negb (median_promotable p z comp))
         end
   end.
+
+(* ---------- several searches on one storage ----------
+   load_metadata_from_all_jobs(search_id, key) reads the jobs of ONE search: a storage holding several searches is
+   a list of single-search machines; an operation is addressed to (search, evaluation). *)
+Definition mstep (p : params) (ss : list (list job)) (mo : nat * op) : list (list job) * option bool :=
+  match nth_error ss (fst mo) with
+  | Some s => let r := step p s (snd mo) in (upd (fst mo) (fst r) ss, snd r)
+  | None => (ss, None)
+  end.
+
+Definition mrun_state (p : params) (ss : list (list job)) (mops : list (nat * op)) : list (list job) :=
+  fold_left (fun ss mo => fst (mstep p ss mo)) mops ss.
+
+(* the operations addressed to search k *)
+Definition project (k : nat) (mops : list (nat * op)) : list op :=
+  map snd (filter (fun mo => Nat.eqb (fst mo) k) mops).
